@@ -129,7 +129,8 @@ static size_t pick_size(ThreadCtx& t) {
   unsigned r = (unsigned)vf_rng_below(&t.rng, 100);
   if (r < 80) { size_t c = classes[vf_rng_below(&t.rng, 6)]; return c - (size_t)vf_rng_below(&t.rng, 8 < c ? 8 : 1); }
   if (r < 97) return 1 + (size_t)vf_rng_below(&t.rng, 4000);
-  return 64 * KiB + (size_t)vf_rng_below(&t.rng, 600 * KiB);
+  if (r < 99 || C.scenario != "exit") return 64 * KiB + (size_t)vf_rng_below(&t.rng, 600 * KiB);
+  return 1 * MiB + (size_t)vf_rng_below(&t.rng, 8 * MiB);      // exit scenario: now and then a block that has a (multi-MiB) page of its own
 }
 
 static bool do_alloc(ThreadCtx& t, MBlk* out, mi_heap_t* heap = nullptr, size_t force_n = 0) {
@@ -517,13 +518,41 @@ static void spawn_exit_thread(int gen, int slot) {
   g_thread_starts.fetch_add(1, std::memory_order_relaxed);
   vf_thread_create(&exit_body, a);
 }
+// "please free this block for me": a block that its owner wants freed by ANOTHER thread while the owner is still alive (the free is parked on the owner's delayed list)
+static std::atomic<MBlk*> g_bigfree[MAXT];
+static std::atomic<int> g_bigfree_done[MAXT];
+static void service_bigfree(ThreadCtx& t, int self_slot) {
+  for (int s = 0; s < C.threads && s < MAXT; s++) {
+    if (s == self_slot || g_bigfree[s].load(std::memory_order_acquire) == nullptr) continue;
+    if (C.subprocs > 1 && (s % 2) != (self_slot % 2) && self_slot >= 0) continue;
+    MBlk* b = g_bigfree[s].exchange(nullptr, std::memory_order_acq_rel);
+    if (b != nullptr) { verify(*b, "block handed over to be freed"); do_free(t, *b, true); delete b; g_bigfree_done[s].fetch_add(1, std::memory_order_release); }
+  }
+}
+// with a per-thread segment target: six blocks with multi-MiB pages of their own fill two segments, one of the second segment is freed by another thread while this
+// thread lives, then a seventh is allocated: the thread is at its target, force-abandons a segment, processes the parked free on the way (which makes room in the other
+// segment) and allocates a fresh segment that it may not need after all.  Everything is handed on as usual; at the end nothing may stay claimed (finding F24).
+static void exit_big_pattern(ThreadCtx& t, int slot) {
+  std::vector<MBlk> a;
+  for (int i = 0; i < 6; i++) { MBlk b; if (do_alloc(t, &b, nullptr, 8 * MiB)) a.push_back(b); }
+  if (a.size() == 6) {
+    int before = g_bigfree_done[slot].load();
+    g_bigfree[slot].store(new MBlk(a[3]), std::memory_order_release);
+    a.erase(a.begin() + 3);
+    wait_until(g_bigfree_done[slot], before + 1, "a block is freed by another thread");
+    MBlk b; if (do_alloc(t, &b, nullptr, 8 * MiB)) a.push_back(b);
+  }
+  for (auto& b : a) t.mine.push_back(b);
+}
 static void exit_body(void* arg) {
   ExitArg* a = (ExitArg*)arg; ThreadCtx& t = *a->t;
   int slot = a->slot;
   if (C.subprocs > 1) { mi_subproc_add_current_thread(g_subproc[slot % 2]); t.sp = 1 + (slot % 2); }
   int T = C.threads;
+  if (mi_option_get(mi_option_target_segments_per_thread) > 0 && C.threads >= 2 && C.subprocs <= 1 && vf_rng_chance(&t.rng, 1, 3)) exit_big_pattern(t, slot);
   for (uint64_t op = 0; op < C.ops; op++) {
     vf_cur_op = op;
+    service_bigfree(t, slot);
     unsigned r = (unsigned)vf_rng_below(&t.rng, 100);
     if (r < 45 || t.mine.empty()) { MBlk b; if (t.mine.size() < 300 && do_alloc(t, &b)) t.mine.push_back(b); }
     else if (r < 60) { size_t i = (size_t)vf_rng_below(&t.rng, t.mine.size()); do_free(t, t.mine[i], false); t.mine[i] = t.mine.back(); t.mine.pop_back(); }
@@ -546,7 +575,7 @@ static void exit_body(void* arg) {
 static void exit_final_body(void* arg) {
   // the last survivor: waits until every slot finished its generations, then frees everything that is still in the mailboxes
   ThreadCtx& t = *(ThreadCtx*)arg;
-  wait_until(g_ex_finished, C.threads, "all generations finished");
+  { uint64_t spins = 0; while (g_ex_finished.load(std::memory_order_acquire) < C.threads) { service_bigfree(t, -1); vf_user_yield("all generations finished"); if (++spins > 2000000000ull) vf_trip("harness", "", "exit_final_body stuck"); } }
   for (int s = 0; s < C.threads; s++) { std::vector<MBlk> in; recv_all(s, in); for (auto& b : in) { verify(b, "block left behind by a terminated thread"); do_free(t, b, true); } }
   vf_cur_what = "survivor collect";
   mi_collect(true);
